@@ -7,7 +7,8 @@
 (* input with or without the last year.                                     *)
 (***************************************************************************)
 EXTENDS HermesRun
-CONSTANT Big        \* FALSE: the quick tier's subset of the initial states
+CONSTANTS Big,          \* FALSE: the quick tier's subset of the initial states
+          OrgAtHarvest  \* TRUE: organic fertiliser at the harvest of every entry (control: the skipped-entry branch)
 Lens == <<4, 5, 4>>
 MCYLen(y) == IF y \in 1..Len(Lens) THEN Lens[y] ELSE 4
 RECURSIVE Before(_)
@@ -34,7 +35,7 @@ ProjOf(b, e, od, irr, fert, till, r, hv, am, ah) ==
    saat2 |-> <<0, r.s1, r.s2>>,
    ernte |-> <<b, IF r.a1 /\ ah THEN 0 ELSE r.h1, IF r.a2 /\ ah THEN 0 ELSE r.h2>>,
    ernte2 |-> <<b, r.h1, r.h2>>,
-   nr |-> <<0, 2, 3>>, keep |-> <<0, 0, 0>>,
+   nr |-> <<0, 2, 3>>, keep |-> <<0, 0, 0>>, peren |-> <<0, 0, 0>>, orgH |-> IF OrgAtHarvest THEN <<0, 1, 1>> ELSE <<0, 0, 0>>,
    autoMan |-> am, autoHar |-> ah, autoFert |-> FALSE, autoIrr |-> FALSE, have |-> hv]
 \* three families of initial states (one cfg each), so that each finishes in minutes:
 \*  Cal : every start / end / annual day / covered years, no schedules, one fixed rotation
